@@ -67,6 +67,25 @@ if len(sys.argv) > 3 and sys.argv[3] == "twosite":
                "  returns a slightly different but still documented form, and a caller that relies on the old form in one branch; a\n"
                "  normalisation moved from the producer to only some of the consumers; an invariant established at one place and\n"
                "  assumed at another, weakened at the first.\n")
+if len(sys.argv) > 3 and sys.argv[3] == "reuse":
+    VARIANT = ("* Prefer changes that only show through the *lifetime and identity of objects*: a trie / tree / fog / proof / cache /\n"
+               "  ScratchDB that is copied (`copy.copy`, `copy.deepcopy`, `pickle`), re-opened on the same database, assigned to\n"
+               "  (`trie.root_hash = earlier_root`, `trie.db = other`, `root_node = ...`), shared between two owners, kept by the caller\n"
+               "  across later mutations (a node, a branch, a proof, a ref_count mapping, a prefix handed out earlier), or used again\n"
+               "  after `squash_changes` / `at_root` / an exception; state that should be per-object but becomes shared, or should be\n"
+               "  re-derived but is carried over.\n")
+if len(sys.argv) > 3 and sys.argv[3] == "lazy":
+    VARIANT = ("* Prefer changes that hide in *lazy evaluation and iteration*: generator functions whose body runs later than the call\n"
+               "  (validation, database reads, exceptions raised at first `next()` instead of at the call), partially consumed\n"
+               "  iterators, two iterations interleaved, iteration while the underlying trie / database changes, results that are\n"
+               "  generators in one branch and tuples in another, `@to_tuple`-style decorators dropped or added, evaluation order of\n"
+               "  the items yielded (duplicates, order of siblings, parents before children), early `return` inside a generator.\n")
+if len(sys.argv) > 3 and sys.argv[3] == "content":
+    VARIANT = ("* Prefer changes that only show for *particular byte contents*: a value that is itself the 32-byte hash of a stored node,\n"
+               "  or the RLP / binary encoding of a node; values and keys containing 0x00, 0x10, 0x80, 0xc0, 0xff at the first or last\n"
+               "  position; two different keys whose nibble / bit expansions are related (one is the other shifted, reversed, or padded);\n"
+               "  a key equal to a hash; values equal to the configured default or to b''; identical values under many keys; a node whose\n"
+               "  encoding is exactly 31, 32 or 33 bytes; content that makes two different sub-tries byte-identical.\n")
 prop = [json.loads(l) for l in open(os.path.join(HERE, "properties.jsonl")) if json.loads(l)["id"] == pid][0]
 wt = "/tmp/wt/%s%s" % (pid, suffix)
 os.makedirs("/tmp/wt", exist_ok=True)
